@@ -223,5 +223,5 @@ SCORE_FUNCTIONS = ['TBRMMScore.__post_init__', 'TBRMMScore.score',
                    'TBRMMScore.score.setter', 'TBRMMScore.__lt__']
 DESIGN_FUNCTIONS = ['TBRMMDesign.__post_init__', 'TBRMMDesign.__lt__']
 FUNCTIONS = list(dg.FUNCTIONS)
-LEMMAS = []
+LEMMAS = list(dg.LEMMAS)
 # contracts used at call sites whose bodies are verified elsewhere / later
